@@ -64,6 +64,11 @@ func (e *pdEngine) Gen(r *hlib.Rand, tier string) []string {
 			}
 			hb := fmt.Sprintf("pd.hb %d %s %s %d %d", id, hlib.Hex(a), hlib.Hex(b), 1+r.Intn(3), 1+r.Intn(3))
 			hbs = append(hbs, hb)
+			if r.Chance(10) {
+				// the same heartbeat with a failing write to pd/storage, then lookups in and around its range
+				ops = append(ops, strings.Replace(hb, "pd.hb", "pd.hbfail", 1), "pd.get "+hlib.Hex(a), "pd.get "+hlib.Hex(rkey(r)))
+				continue
+			}
 			ops = append(ops, hb)
 		case x < 55:
 			ops = append(ops, fmt.Sprintf("pd.rm %d", r.Intn(6)))
@@ -98,6 +103,8 @@ func pdErr(err error) string {
 	}
 	msg := status.Convert(err).Message()
 	switch {
+	case strings.Contains(msg, "persist region metadata"):
+		return "rej:persist"
 	case strings.Contains(msg, "invalid region id"):
 		return "rej:invalid-id"
 	case strings.Contains(msg, "stale"):
@@ -120,8 +127,16 @@ func (e *pdEngine) Exec(ops []string) []string {
 	var st *pdstorage.LocalStore
 	var svc *pdserver.Service
 	var cluster *core.Cluster
+	pdArmed := false // one-shot: the next write to PD's manifest fails
+	pdfs := vfs.NewFaultFS(vfs.OSFS{}, func(op vfs.Op, path string) error {
+		if pdArmed && op == vfs.OpFileWrite && strings.Contains(path, "MANIFEST-") {
+			pdArmed = false
+			return fmt.Errorf("verif: injected pd storage write failure")
+		}
+		return nil
+	})
 	open := func() {
-		st, err = pdstorage.OpenLocalStore(dir, nil)
+		st, err = pdstorage.OpenLocalStore(dir, pdfs)
 		if err != nil {
 			panic(err)
 		}
@@ -149,6 +164,11 @@ func (e *pdEngine) Exec(ops []string) []string {
 	out := make([]string, len(ops))
 	for i, op := range ops {
 		f := strings.Fields(op)
+		pdArmed = false
+		if f[0] == "pd.hbfail" {
+			pdArmed = true
+			f[0] = "pd.hb"
+		}
 		switch f[0] {
 		case "pd.hb":
 			id, _ := strconv.ParseUint(f[1], 10, 64)
